@@ -167,11 +167,33 @@ def model_outputs(drv, U, P, W, args):
     return out
 
 
+def run_integral(ctx, case, c):
+    """the default integration of exact data on curves that jump at an interior knot (multiplicity degree+1, or degree 0 with several
+    spans): the exact value is sum_i P_i (u_(i+p+1) - u_i)/(p+1); a rule that samples the span ends would read the wrong side"""
+    rec = ctx["rec"]
+    U, P = c["U"], [tuple(q) for q in c["P"]]
+    p, n, knots = kv_info(U)
+    rec.case(case, nontrivial=True)
+    rec.count("data", "integral-discontinuous")
+    curve = make_curve(U, P, None)
+    r = impl(lambda: Integrate.scalar(curve))
+    want = sum(P[i][0] * (U[i + p + 1] - U[i]) / (p + 1) for i in range(n))
+    l3(rec, "closed-form-integral")
+    if r[0] != "ok":
+        rec.violation("default integration raised on exact data", case, observed=r[1])
+    elif has_float(r[1]):
+        rec.violation("float introduced by the default integration of exact data", case)
+    elif frac(r[1]) != want:
+        rec.violation("default integration of exact data is not the exact integral", case, observed=str(r[1]), expected=str(want))
+
+
 def run_case(ctx, case):
     rec, drv = ctx["rec"], ctx["drv"]
     c = de(case)
     if c["kind"] == "custom":
         return run_custom(ctx, case, c)
+    if c["kind"] == "integral":
+        return run_integral(ctx, case, c)
     U, P, W, args = c["U"], [tuple(q) for q in c["P"]], c["W"], c["args"]
     rec.case(case, nontrivial=nontrivial_kv(U))
     rec.count("data", c.get("label", "?"))
@@ -296,6 +318,15 @@ def wellcond_kv(rng, p, nint, interval):
 
 def run(ctx):
     rng = ctx["rng"]
+    for i in range(budget(ctx, 10, 100)):
+        p_ = rng.randint(0, 3)
+        a_, b_ = rand_interval(rng)
+        inner = sorted(rng.sample(GRID, rng.randint(1, 3)))
+        U = [a_] * (p_ + 1)
+        for j, x in enumerate(inner):
+            U += [a_ + (b_ - a_) * x] * (p_ + 1 if j == 0 else rng.randint(1, p_ + 1))
+        U += [b_] * (p_ + 1)
+        run_case(ctx, ser(dict(kind="integral", U=U, P=rand_points(rng, kv_info(U)[1], 1))))
     nmain = budget(ctx, 30, 400)
     nhigh = budget(ctx, 5, 40)
     for i in range(nmain + nhigh):
